@@ -59,3 +59,45 @@ Qed.
 
 Lemma D_of_Z_finite n : Z.abs n < 2 ^ 53 -> is_finite (D.of_Z n) = true.
 Proof. intros H. exact (proj2 (of_Z_exact 53 1024 Hp64 He64 n H)). Qed.
+
+(* comparisons between integers stored as floats *)
+Section CmpZ.
+  Variables prec emax : Z.
+  Context (Hp : Prec_gt_0 prec) (He : Prec_lt_emax prec emax).
+
+  Lemma flt_of_Z a b : Z.abs a < 2 ^ prec -> Z.abs b < 2 ^ prec ->
+    flt prec emax (of_Z prec emax Hp He a) (of_Z prec emax Hp He b) = (a <? b).
+  Proof.
+    intros Ha Hb. destruct (of_Z_exact prec emax Hp He a Ha) as [Ra Fa].
+    destruct (of_Z_exact prec emax Hp He b Hb) as [Rb Fb].
+    unfold flt. rewrite Bltb_correct by assumption. rewrite Ra, Rb.
+    destruct (Rlt_bool_spec (IZR a) (IZR b)) as [H|H].
+    - apply lt_IZR in H. symmetry. apply Z.ltb_lt. exact H.
+    - apply le_IZR in H. symmetry. apply Z.ltb_ge. exact H.
+  Qed.
+
+  Lemma fneg_of_Z a : Z.abs a < 2 ^ prec -> a <> 0 ->
+    B2R (fneg prec emax (of_Z prec emax Hp He a)) = IZR (- a) /\
+    is_finite (fneg prec emax (of_Z prec emax Hp He a)) = true.
+  Proof.
+    intros Ha _. destruct (of_Z_exact prec emax Hp He a Ha) as [Ra Fa].
+    unfold fneg. rewrite B2R_Bopp, is_finite_Bopp, Ra, opp_IZR. split; [reflexivity|exact Fa].
+  Qed.
+End CmpZ.
+
+(* a coordinate within +-MAX_COORDINATE_VALUE passes the decoder's limit test *)
+Lemma coord_in_limit n : Z.abs n <= 131072 ->
+  S.lt (S.of_Z n) (S.neg (S.of_Z 131072)) = false /\ S.gt (S.of_Z n) (S.of_Z 131072) = false /\
+  S.is_nan (S.of_Z n) = false /\ is_finite (S.of_Z n) = true.
+Proof.
+  intros H. assert (Hn : Z.abs n < 2 ^ 24) by lia. assert (Hl : Z.abs 131072 < 2 ^ 24) by (cbn; lia).
+  destruct (of_Z_exact 24 128 Hp32 He32 n Hn) as [Rn Fn].
+  destruct (fneg_of_Z 24 128 Hp32 He32 131072 Hl ltac:(lia)) as [Rm Fm].
+  repeat split.
+  - unfold S.lt, S.neg, S.of_Z, flt. rewrite Bltb_correct by assumption. rewrite Rn, Rm.
+    apply Rlt_bool_false. apply IZR_le. lia.
+  - unfold S.gt, fgt. change (Bltb (S.of_Z 131072) (S.of_Z n)) with (flt 24 128 (S.of_Z 131072) (S.of_Z n)).
+    unfold S.of_Z. rewrite (flt_of_Z 24 128 Hp32 He32 131072 n Hl Hn). apply Z.ltb_ge. lia.
+  - unfold S.is_nan, fis_nan, S.of_Z. destruct (of_Z 24 128 Hp32 He32 n); try reflexivity; discriminate Fn.
+  - exact Fn.
+Qed.
